@@ -148,7 +148,7 @@ Section Plain.
         assert (Hpairs : pairs cl fs m = emit1 fs tv).
         { rewrite (pairs_plain cl fs m Hwc Hnames), Hevars; [cbn [flat_map]; apply app_nil_r|].
           intros var Hv. rewrite Hevars in Hv. destruct Hv as [<-|[]].
-          destruct (wf_text_inv tv Hwt) as [_ [Hc _]]. destruct (var_common_inv tv Hc) as [_ [_ [_ [_ [_ [_ [_ [Hs _]]]]]]]]. exact Hs. }
+          apply (wf_text_noseq tv Hwt). }
         assert (Hkf : flat_map (fun vv => RoundtripGen.e_field c u (eobj n) (fst vv) (snd vv)) (pairs cl fs m)
                       = RoundtripGen.e_field c u (eobj n) tv (field_of fs tv)).
         { rewrite Hpairs. unfold emit1. destruct (field_of fs tv); cbn [flat_map fst snd]; rewrite ?app_nil_r; reflexivity. }
